@@ -74,6 +74,10 @@ type Br struct {
 // Style decides the layout of the printed text.
 type Style struct {
 	OneLine bool   // definitions on one line
+	// Join (with OneLine): the definitions share one line, separated by a
+	// space (a text ReadFile need not accept; where it does, it means what
+	// it says)
+	Join bool
 	NL      []byte // line ending
 	gaps    int    // symbolic separators still available
 	Tab     bool   // indent with tabs
@@ -311,6 +315,9 @@ func Print(defs []Def, s *Style) []byte {
 			b = app(b, s.NL)
 		}
 		b = d.print(b, s, nil)
+		if s.Join && s.OneLine && i+1 < len(defs) && len(b) >= len(s.NL) {
+			b = app(b[:len(b)-len(s.NL)], " ")
+		}
 	}
 	return b
 }
